@@ -110,7 +110,7 @@ int main() {
 
 def triage(run, rep, hc, hk, pid):
     for ob, model, definitive in driver.refuted(run, rep):
-        if not ob.name.startswith(pid + "."):
+        if not (ob.name.startswith(pid + ".") or (pid == "C06" and ".records_innovation" in ob.name)):
             continue
         problems, payload = native_disagreement(run, hc, hk)
         if problems:
